@@ -101,6 +101,7 @@ class SdRunner(ScenarioRunner):
                 # need to set up the sd simulation
                 # TODO: the following should really be part of SdSimulation
                 sc.sd_simulation = SdSimulation(model=sc.model, name=sc.name)
+                sc._pre_session = (dict(sc.model.equations), dict(sc.model.points))
                 # first apply the scenario settings
                 for name, value in sc.constants.items():
                     sc.sd_simulation.change_equation(name=name, value=value)
